@@ -29,7 +29,7 @@ def main(tier):
     chk.run("R-MIRROR", C.mirror, cx.cpp, floor=8)
     chk.run("R-WINDOW", WN.window, cx.cpp, floor=5)
     chk.run("R-SIGNEXT", C.signext, cx.cpp, floor=4)
-    chk.run("R-NARROWLIT", CR.narrowlit, cx.cpp, floor=10)
+    chk.run("R-NARROWLIT", CR.narrowlit, cx.cpp, skip=r"Write|MaskInValue|ConvertToBcd", floor=10)
     chk.run("R-BCDMASK", CR.bcdmasks, cx.cpp, floor=4)
     chk.run("R-SIGNCONV", CR.signconv, cx.cpp, floor=500)
     chk.run("R-LOOPCOVER", CR.loopcover, cx.cpp, methods=("ConvertToBinary",), floor=64)
